@@ -127,7 +127,8 @@ type c12hpConn struct {
 	local, remote peer.ID
 	laddr, raddr  ma.Multiaddr
 	dir           network.Direction
-	limited       bool
+	isRelayed     bool // ground truth: made through a relay (its remote multiaddr is a /p2p-circuit address)
+	limited       bool // what Stat().Limited reports; an independent dimension (c12hpLim*)
 	mu            sync.Mutex
 	closed        bool
 }
@@ -155,13 +156,18 @@ func (c *c12hpConn) Stat() network.ConnStats {
 }
 
 // relayed is the fixture's ground truth (how the connection was made), independent of what the code under
-// test reads from the multiaddrs.
-func (c *c12hpConn) relayed() bool { return c.limited }
+// test reads from the multiaddrs or from Stat().
+func (c *c12hpConn) relayed() bool { return c.isRelayed }
 
 func (c *c12hpConn) kind() string {
 	k := "direct"
 	if c.relayed() {
 		k = "relayed"
+		if !c.limited {
+			k = "relayed-unlimited"
+		}
+	} else if c.limited {
+		k = "direct-limited"
 	}
 	if c.dir == network.DirInbound {
 		return k + "-inbound"
@@ -169,8 +175,28 @@ func (c *c12hpConn) kind() string {
 	return k + "-outbound"
 }
 
-func c12hpNewConn(w *c12hpWorld, seq int, relayed bool, dir network.Direction) *c12hpConn {
-	c := &c12hpConn{id: fmt.Sprintf("c%d", seq), local: w.self, remote: w.remote, dir: dir, limited: relayed}
+// What Stat().Limited says, as a dimension of its own: a relayed connection is limited only if the relay imposes
+// limits (relayv2.WithInfiniteLimits gives Limited == false on a /p2p-circuit connection), and nothing in the
+// types keeps a transport from reporting Limited on a connection that is not relayed. The flags apply to every
+// connection of an execution: the scripted ones, those a dial creates and the late inbound one.
+const (
+	c12hpLimNatural          = 0 // relayed => Limited, direct => not Limited
+	c12hpLimRelayedUnlimited = 1 // bit 0: relayed connections report Limited == false
+	c12hpLimDirectLimited    = 2 // bit 1: direct connections report Limited == true
+	c12hpNLimFlags           = 4 // 3 = both
+)
+
+var c12hpLimNames = []string{"relayed:limited,direct:unlimited", "relayed:UNLIMITED,direct:unlimited", "relayed:limited,direct:LIMITED", "relayed:UNLIMITED,direct:LIMITED"}
+
+func c12hpLimitedFor(limFlags int, relayed bool) bool {
+	if relayed {
+		return limFlags&c12hpLimRelayedUnlimited == 0
+	}
+	return limFlags&c12hpLimDirectLimited != 0
+}
+
+func c12hpNewConn(w *c12hpWorld, seq int, relayed, limited bool, dir network.Direction) *c12hpConn {
+	c := &c12hpConn{id: fmt.Sprintf("c%d", seq), local: w.self, remote: w.remote, dir: dir, isRelayed: relayed, limited: limited}
 	if relayed {
 		c.laddr, c.raddr = w.relayedLocal, w.relayedRemote
 	} else {
@@ -456,6 +482,7 @@ type c12hpHost struct {
 	wg        sync.WaitGroup // remote-end driver goroutines
 
 	// script
+	limFlags    int                                               // c12hpLim*: what Stat().Limited reports for relayed / direct connections
 	directOK    bool                                              // outcome of a force-direct dial that is not a simultaneous-connect attempt
 	punchOK     func(k int) bool                                  // outcome of the k-th (0-based) simultaneous-connect dial
 	failBlocks  bool                                              // a failing dial blocks until the context deadline instead of failing after 300 ms
@@ -495,7 +522,7 @@ func (h *c12hpHost) addConn(relayed bool, dir network.Direction) *c12hpConn {
 	h.mu.Lock()
 	defer h.mu.Unlock()
 	h.connSeq++
-	c := c12hpNewConn(h.w, h.connSeq, relayed, dir)
+	c := c12hpNewConn(h.w, h.connSeq, relayed, c12hpLimitedFor(h.limFlags, relayed), dir)
 	h.conns = append(h.conns, c)
 	return c
 }
@@ -509,6 +536,32 @@ func (h *c12hpHost) hasDirect() bool {
 		}
 	}
 	return false
+}
+
+// bestConn is the swarm's bestConnToPeer over the scripted connections: a connection that is not Limited beats a
+// Limited one, then a direct one beats a relayed one (isBetterConn); ties keep the earlier connection.
+func (h *c12hpHost) bestConn(p peer.ID) *c12hpConn {
+	h.mu.Lock()
+	defer h.mu.Unlock()
+	var best *c12hpConn
+	for _, c := range h.conns {
+		if c.remote != p || c.IsClosed() {
+			continue
+		}
+		switch {
+		case best == nil:
+			best = c
+		case c.limited != best.limited:
+			if !c.limited {
+				best = c
+			}
+		case c.relayed() != best.relayed():
+			if !c.relayed() {
+				best = c
+			}
+		}
+	}
+	return best
 }
 
 func (h *c12hpHost) ID() peer.ID                      { return h.id }
@@ -556,8 +609,10 @@ func (h *c12hpHost) setResult(i int, res string, dialled []ma.Multiaddr) {
 //   - pi.Addrs are absorbed into the peerstore;
 //   - without force-direct, ANY existing connection (also a limited one) satisfies the call: Swarm.dialPeer
 //     returns bestAcceptableConnToPeer, which only rejects a limited connection under force-direct;
-//   - with force-direct an existing direct connection satisfies the call; otherwise the peerstore addresses
-//     are dialled, relay addresses filtered out under force-direct; nothing to dial => error;
+//   - with force-direct the call is satisfied by the best existing connection if that one is not relayed
+//     (bestAcceptableConnToPeer: isDirectConn = the transport is no proxy; Stat().Limited plays no part);
+//     otherwise the peerstore addresses are dialled, relay addresses filtered out under force-direct; nothing
+//     to dial => error;
 //   - the scripted outcome decides the dial; success adds a connection of the kind that was dialled.
 func (h *c12hpHost) Connect(ctx context.Context, pi peer.AddrInfo) error {
 	force, _ := network.GetForceDirectDial(ctx)
@@ -576,7 +631,7 @@ func (h *c12hpHost) Connect(ctx context.Context, pi peer.AddrInfo) error {
 		h.setResult(idx, "ok:existing-connection-accepted-without-force-direct", nil)
 		return nil
 	}
-	if force && h.hasDirect() {
+	if best := h.bestConn(pi.ID); force && best != nil && !best.relayed() {
 		h.setResult(idx, "ok:existing-direct-connection", nil)
 		return nil
 	}
@@ -640,8 +695,10 @@ func (h *c12hpHost) Connect(ctx context.Context, pi peer.AddrInfo) error {
 
 // NewStream records the call and then behaves like BasicHost.NewStream over a Swarm holding h.conns: no
 // connection => ErrNoConn under no-dial (otherwise a real host would dial: recorded as ImplicitDial and failed);
-// the best connection is a direct one if there is any; a limited connection is used only with allow-limited
-// (the real swarm would wait for a direct connection; the fixture fails at once with ErrLimitedConn).
+// the best connection is one that is not Limited if there is any, then a direct one (bestConn); a connection
+// that reports Limited is used only with allow-limited (the real swarm would wait for a direct connection; the
+// fixture fails at once with ErrLimitedConn). What counts here is Stat().Limited, as in Swarm.NewStream: a
+// relayed connection of a relay without limits carries any stream.
 func (h *c12hpHost) NewStream(ctx context.Context, p peer.ID, protos ...protocol.ID) (network.Stream, error) {
 	allow, _ := network.GetAllowLimitedConn(ctx)
 	nodial, _ := network.GetNoDial(ctx)
@@ -649,16 +706,8 @@ func (h *c12hpHost) NewStream(ctx context.Context, p peer.ID, protos ...protocol
 	if len(protos) > 0 {
 		call.Proto = string(protos[0])
 	}
-	var best *c12hpConn
+	best := h.bestConn(p)
 	h.mu.Lock()
-	for _, c := range h.conns {
-		if c.remote != p || c.IsClosed() {
-			continue
-		}
-		if best == nil || (best.relayed() && !c.relayed()) {
-			best = c
-		}
-	}
 	k := h.nStream
 	h.nStream++
 	h.lastOffered = nil // a new coordination round: nothing offered yet
@@ -675,7 +724,7 @@ func (h *c12hpHost) NewStream(ctx context.Context, p peer.ID, protos ...protocol
 		return nil, errors.New("c12hp: implicit dial failed")
 	}
 	call.ConnKind = best.kind()
-	if best.relayed() && !allow {
+	if best.limited && !allow {
 		call.Result = "err:limited-conn"
 		h.record(call)
 		return nil, network.ErrLimitedConn
